@@ -119,10 +119,13 @@ def explore(rep, binary, pool, sizes, qmax, expand_chars, max_states):
                   rep.cls(f"rows:{before['n']}")
                   if res.get("result") == "ok" and key_of(after) != key_of(before):
                       rep.hashes.add(hash((key_of(before), ev_name(e))))
-                  for cname, text in judge(before, e, after, res.get("result"), res.get("panic")):
+                  verdicts = judge(before, e, after, res.get("result"), res.get("panic"))
+                  for cname, text in verdicts:
                       sig = f"C17:{cname}:{ev_name(e)}" if cname in ("panic", "selection-range") else f"C17:{cname}"
                       rep.violation(sig, text, {"mode": "tui", "state": cmd["state"], "event": e})
-                  if res.get("result") != "ok":
+                  if res.get("result") != "ok" or verdicts:
+                      # a state reached through a violating transition is not explored further (a selection that left
+                      # its range can otherwise be walked through 2^64 values)
                       continue
                   if len(rep.samples) < 4 and key_of(after) != key_of(before) and rounds > 1:
                       rep.sample({"before": before, "event": ev_name(e), "after": after})
